@@ -724,6 +724,15 @@ func (x *Exec) binop(st *State, op token.Token, a, b Val, rt types.Type, pos tok
 	return Val{}, fmt.Errorf("binary operator %s on %s unsupported", op, a.T)
 }
 
+// bvStringFuns declares the string <-> bytes bridge of bit-vector mode: sbytes(s) is the byte array of s,
+// mkstr(a, o, n) the string made of a[o .. o+n); converting a string to bytes and back gives the same string.
+func (x *Exec) bvStringFuns(bs Sort) {
+	u := x.u
+	u.DeclareFun("sbytes", []Sort{SStr}, ArrSort(u.IntSort(), bs))
+	u.DeclareFun("mkstr", []Sort{ArrSort(u.IntSort(), bs), u.IntSort(), u.IntSort()}, SStr)
+	u.emitOnce("(assert (forall ((s Str)) (! (= (mkstr (sbytes s) #x0000000000000000 (slen s)) s) :pattern ((sbytes s)))))")
+}
+
 func (x *Exec) convert(st *State, v Val, from, to types.Type) (Val, error) {
 	u := x.u
 	fk, tk := classify(from), classify(to)
@@ -740,7 +749,7 @@ func (x *Exec) convert(st *State, v Val, from, to types.Type) (Val, error) {
 		// element array equals the string's bytes: E[ptr] = bytesOf(s)
 		bs := x.u.sortOfInt(intInfo{8, false})
 		if u.Mode == ModeBV {
-			u.DeclareFun("sbytes", []Sort{SStr}, ArrSort(u.IntSort(), bs))
+			x.bvStringFuns(bs)
 		}
 		if u.Mode == ModeInt {
 			u.emitOnce("(assert (forall ((s Str) (i Int)) (! (= (select (sbytes s) i) (sbyte s i)) :pattern ((select (sbytes s) i)))))")
@@ -756,7 +765,7 @@ func (x *Exec) convert(st *State, v Val, from, to types.Type) (Val, error) {
 		bs := x.u.sortOfInt(intInfo{8, false})
 		et := from.Underlying().(*types.Slice).Elem()
 		if u.Mode == ModeBV {
-			u.DeclareFun("mkstr", []Sort{ArrSort(u.IntSort(), bs), u.IntSort(), u.IntSort()}, SStr)
+			x.bvStringFuns(bs)
 		}
 		if u.Mode == ModeInt {
 			u.emitOnce("(assert (forall ((a (Array Int Int)) (o Int) (n Int)) (! (=> (>= n 0) (= (slen (mkstr a o n)) n)) :pattern ((mkstr a o n)))))")
